@@ -89,7 +89,9 @@ ListingOrderOK == Closed => LET d == DfsOrder IN
                     /\ Len(d) = FoldLeft(LAMBDA a, s : a + Len(stages[s]), 0, [s \in 1..(Len(stages) - 1) |-> s + 1])
 \* C03: the default export is the source grid minus global comments and all-null lines, cell for cell
 SourceGrid == LET rows == SelectSeq(fed, LAMBDA e : e.ev \in {"header", "row"}) IN
-              [r \in 1..Len(rows) |-> [i \in 1..Len(rows[r].cells) |-> TokenText(rows[r].cells[i])]]
+              [r \in 1..Len(rows) |-> [i \in 1..Len(rows[r].cells) |->
+                   IF rows[r].cells[i].k = "note" THEN Plain(SingleExt(rows[r].cells[i].n, Cat))        \* notes: their normal form
+                   ELSE TokenText(rows[r].cells[i])]]
 Conserve == Closed => ExportGrid(DefaultOpts) = SelectSeq(SourceGrid, LAMBDA row : ~RowDropped(row))
 \* C06: selecting spine ids is column projection of the full export
 SpinedRow(s, o) == LET vis == VisibleNodes(s, o) IN [i \in 1..Len(vis) |-> <<CellView(vis[i], o).t, SpineOf(vis[i])>>]
